@@ -50,6 +50,14 @@ def cases(tier, seed):
             cfg["max_steplength"] = float(gen.pick(rng, [0.05, 0.1, 0.2, 0.5, 1.0, 2.0]))  # the user's cap on the step length
         e2e.vary_rare_parameters(rng, cfg)
         yield {"problem": ps, "cfg": cfg}
+    for i in range(120 if tier == "quick" else 3000):
+        # one problem, every evaluation budget from 2 to 24: the budget is spent at every point of the run in turn, in particular exactly
+        # at the end of a search that had extrapolated beyond its best trial
+        ps = gen.rand_spec(rng, ("exp_valley", "exp_valley", "exp_valley", "exp_valley", "exp_wall", "oscillating", "rastrigin", "rosenbrock"), nmax=5, nmin=1,
+                           boxes=("none", "none", "mixed", "lower"), starts=("interior",))
+        base = {"jac": "callable", "maxcor": int(rng.integers(1, 8)), "maxls": int(gen.pick(rng, [20, 20, 5])), "maxiter": 60, "ftol": 0.0, "gtol": 1e-9, "cb": "never"}
+        for m in range(2, 25):
+            yield {"problem": dict(ps), "cfg": dict(base, maxfun=m)}
     for i in range(200 if tier == "quick" else 5000):
         # 64 to 100 variables on objectives whose searches often end on their evaluation cap with the best trial not the last one
         ps = gen.rand_spec(rng, ("rosenbrock", "rastrigin", "styblinski_tang", "oscillating", "qp_quartic", "ackley"), nmax=100, nmin=64,
